@@ -10,6 +10,9 @@ trap 'git -C /repo worktree remove --force "$wt" >/dev/null 2>&1; rm -rf /verif/
 if ! git -C "$wt" apply "$d/patch.diff"; then echo "patch does not apply"; exit 1; fi
 cd /verif
 for pid in "$@"; do
-  EASYML_REPO="$wt" python3 verif.py check "$pid" --tier "${TIER:-quick}" 2>&1 | grep -E "VIOLATION|KNOWN-FINDING|MACHINERY|^\[" 
-  echo "check $pid exit=$?"
+  EASYML_REPO="$wt" python3 verif.py check "$pid" --tier "${TIER:-quick}" > /tmp/seedrun-$$.log 2>&1
+  rc=$?
+  grep -E "VIOLATION|KNOWN-FINDING|MACHINERY|^\[" /tmp/seedrun-$$.log
+  echo "check $pid exit=$rc"
+  rm -f /tmp/seedrun-$$.log
 done
